@@ -364,6 +364,17 @@ func parseRule(node *yaml.Node, offsetLine, offsetColumn int, contentLines []str
 		if entry.part != nil && !isTag(entry.part.ShortTag(), strTag) {
 			return invalidValueError(lines, entry.part.Line+offsetLine, entry.key, describeTag(strTag), describeTag(entry.part.ShortTag()))
 		}
+		// Prometheus decodes an explicit null (null, ~) as an empty string, which it then rejects for these keys.
+		if entry.part != nil && entry.part.ShortTag() == nullTag && entry.part.Value != "" &&
+			(entry.key == recordKey || entry.key == alertKey || entry.key == exprKey) {
+			return Rule{
+				Lines: lines,
+				Error: ParseError{
+					Line: entry.part.Line + offsetLine,
+					Err:  fmt.Errorf("%s value cannot be empty", entry.key),
+				},
+			}, false
+		}
 	}
 
 	for _, entry := range []struct {
